@@ -101,6 +101,12 @@ class CacheSpec(Spec):
         return [[self.capacity, n] for n in self.inits]
 
     def build(self, init):
+        if getattr(self, "_decoy", None) is None:
+            # a second cache that is alive all the time and holds two entries: caches are independent objects
+            d = self.cls(2)
+            d["decoy-1"] = "x"
+            d["decoy-2"] = "y"
+            self._decoy = (d, (list(d), len(d)))
         impl = self.cls(init[0])
         self.last = None
         model = frozenset([self.empty_state()])
@@ -360,6 +366,12 @@ class CacheSpec(Spec):
 
     # ---- after the new transition only (not during replays) --------------------------------------------
     def _check(self, impl, model):
+        d = getattr(self, "_decoy", None)
+        if d is not None:
+            now = (observe(list, d[0]), observe(len, d[0]))
+            if now != (("ok", d[1][0]), ("ok", d[1][1])):
+                raise self.mm("other-instance-disturbed", "a second %s holding two entries now shows (list, len) = %r, "
+                              "it showed %r" % (self.cls_name, now, d[1]))
         s0 = next(iter(model))
         content = self.content(s0)
         order = self.last["order"] if self.last is not None else []
